@@ -13,6 +13,16 @@ History: as found, both halves were false: votes (F2 crash — fixed c4109f0, F1
 fixed 65007c0) and terms (F2 crash, F31 learner rebuilt without hard state — fixed b8fde38).  The model follows
 the fixed code; the witness schedules are kept as regressions.
 
+Crash-point granularity.  A crash (`Label.crash`) can be placed between any two steps, also inside an election; the
+handling of one request is one step.  That is faithful only because the code never exposes the intermediate point
+"reply handed over, hard state not yet saved": every `SharedState` mutator saves the change it makes, and every
+handler replies after its last mutation.  This order is not assumed: the `elect` harness asks, at every
+`save_hard_state` call, whether the reply of the request being handled has already been delivered, and prints it per
+request (`pb` saved before the reply / `pn` nothing to save / `pa` saved after the reply); the model's `persistTag`
+says `pb` exactly when the hard state changed, and the C02 monitor (`persistedBeforeReplyOK`) fails on any `pa`
+(`grant-replied-before-persist`): a crash at that point followed by a restart would let the node vote again in the
+same term, which is exactly the schedule `[voteReq, crash, restart, voteReq]` with the first step's save dropped.
+
 * `term_monotone` — **full strength**: on every schedule (crashes at any point, restarts, learners) the term of
   every node is non-decreasing.  No hypothesis at all beyond a consistent initial image.
 * `OneVotePerTermStatement` — one candidate per (voter, term) on every schedule.  **Still false for the code as
